@@ -63,7 +63,9 @@ FIRST = {'C03-s1', 'C04-s1', 'C05-s1', 'C05-s2', 'C13-s1', 'C08-s2', 'C09-s1', '
          'C06-x2', 'C09-x2',
          'C03-y1', 'C04-y1', 'C04-y2', 'C08-y2', 'C09-y1', 'C09-y2', 'C10-y1', 'C10-y2', 'C11-y1', 'C11-y2', 'C12-y1',
          'C13-y1', 'C13-y2', 'C14-y1', 'C15-y2', 'C18-y1', 'C18-y2', 'C19-y1', 'C19-y2', 'C03-y2', 'C06-y2', 'C12-y2',
-         'C17-y2'}
+         'C17-y2',
+         'C05-z2', 'C08-z1', 'C08-z2', 'C11-z1', 'C12-z1', 'C13-z1', 'C13-z2', 'C16-z1', 'C20-z1', 'C20-z2', 'C05-z1',
+         'C11-z2'}
 n = c = 0
 for d in sorted(glob.glob(os.path.join(ROOT, 'seeded', '*'))):
     meta = json.load(open(os.path.join(d, 'meta.json')))
